@@ -1,4 +1,4 @@
-import Eru.Wal.ProofsRefine
+import Eru.Wal.ProofsHistory
 /-
 C16 — the recovery log replays exactly the uncommitted events.
 
@@ -112,37 +112,99 @@ theorem ids_fresh (ops : List Op) (st : St) : increasing (issued (run ops st).1)
 theorem commit_removes (a : Abs) (id : Nat) : ∀ e ∈ (absStep (.commit id) a).2.pending, e.id ≠ id := by
   intro e he; simp only [absStep, List.mem_filter, decide_eq_true_eq] at he; exact he.2
 
-/-- once committed (the closure exists only after the `Put`, so the event is not in flight), an event
-is never replayed again, whatever happens afterwards: no later recovery of any continuation of the
-history calls a handler for its id -/
-theorem committed_never_replayed (a : Abs) (id : Nat) (hid : id ≤ a.next) (hfl : ∀ e ∈ a.inflight, e.id ≠ id)
-    (ops : List Op) (reg : List String) (out : Event → HOut) :
-    id ∉ replayedIds (absCalls reg out (absRun ops (absStep (.commit id) a).2).2.pending) := by
-  have hg : Gone id (absStep (.commit id) a).2 :=
-    ⟨hid, fun e he => by simp only [absStep, List.mem_filter, decide_eq_true_eq] at he; exact he.2, hfl⟩
-  have := (hg.run id ops _).2.1
-  rw [replayed_iff_pending]
-  rintro ⟨e, he, heq, _⟩
-  exact this e he heq
+def callsOf : Obs → List HCall
+  | .calls cs => cs
+  | _ => []
 
-/-- the same for an event a recovery removed (handler succeeded or declared it unnecessary) -/
-theorem removed_never_replayed (a : Abs) (reg : List String) (out : Event → HOut) (e : Event)
-    (he : e ∈ a.pending) (hs : Sorted a.pending) (hrm : removes reg out e = true)
-    (hnext : e.id ≤ a.next) (hfl : ∀ x ∈ a.inflight, x.id ≠ e.id)
-    (ops : List Op) (reg' : List String) (out' : Event → HOut) :
-    e.id ∉ replayedIds (absCalls reg' out' (absRun ops (absStep (.recover reg out) a).2).2.pending) := by
-  have hg : Gone e.id (absStep (.recover reg out) a).2 := by
-    refine ⟨hnext, ?_, hfl⟩
-    intro x hx
-    simp only [absStep, List.mem_filter] at hx
-    intro hid
-    have : x = e := sorted_id_inj a.pending hs x e hx.1 he hid
-    subst this
-    simp [hrm] at hx
-  have := (hg.run e.id ops _).2.1
-  rw [replayed_iff_pending]
-  rintro ⟨x, hx, heq, _⟩
-  exact this x hx heq
+/-- `recover_call_log` — ONE statement about the concrete handler-call log of `Hydro.Recover` after
+any history, in terms of what the concrete store holds (`pendingOf`): the log is the per-event
+handler chains of the stored events with a registered type, in id order; the replayed ids are strictly
+increasing (logging order, at most once per recovery); an id is replayed iff a stored event with a
+registered type carries it; and every single call carries the id, type and payload of a stored event. -/
+theorem recover_call_log (ops : List Op) (reg : List String) (out : Event → HOut)
+    (hok : opsOk ops) (hn : begins ops < 2 ^ 64) :
+    let P := pendingOf (run ops {}).2
+    let cs := callsOf (step (.recover reg out) (run ops {}).2).1
+    cs = absCalls reg out P ∧
+    (replayedIds cs).Pairwise (· < ·) ∧
+    (∀ n, n ∈ replayedIds cs ↔ ∃ e ∈ P, e.id = n ∧ reg.contains e.typ = true) ∧
+    (∀ c ∈ cs, ∃ e ∈ P, c.id = e.id ∧ c.typ = e.typ ∧ c.item = e.item ∧ reg.contains e.typ = true) := by
+  intro P cs
+  have hP : P = (absRun ops {}).2.pending := (refines ops hok hn).2
+  have hcs : cs = absCalls reg out P := by
+    show callsOf _ = _
+    rw [recover_calls ops reg out hok hn, hP]; rfl
+  refine ⟨hcs, ?_, ?_, ?_⟩
+  · rw [hcs, hP]; exact replayed_in_logging_order_at_most_once ops reg out hok hn
+  · intro n; rw [hcs]; exact replayed_iff_pending reg out P n
+  · intro c hc; rw [hcs] at hc; exact calls_only_pending reg out P c hc
+
+/-- `pending_iff_history` on the concrete store: after a history from the empty log, `e` is stored iff
+the history contains the `Put` of the logger that held `e` in flight, and afterwards neither a
+commit of its id nor a recovery that removes it (`keeps`). -/
+theorem pending_iff_history (ops : List Op) (e : Event) (hok : opsOk ops) (hn : begins ops < 2 ^ 64) :
+    e ∈ pendingOf (run ops {}).2 ↔
+      ∃ ops1 ops2, ops = ops1 ++ .finish e.id :: ops2 ∧ e ∈ (run ops1 {}).2.inflight ∧ ops2.all (keeps e) = true := by
+  rw [(refines ops hok hn).2, Eru.Wal.pending_iff_history ops {} AInv.init e]
+  constructor
+  · rintro (⟨h, _⟩ | ⟨o1, o2, h1, h2, h3⟩)
+    · exact nomatch h
+    · refine ⟨o1, o2, h1, ?_, h3⟩
+      subst h1
+      have hok1 := ((opsOk_append_iff _ _).mp hok).1
+      have hb := begins_append o1 (.finish e.id :: o2)
+      rw [(run_refines o1 {} {} Rel.init hok1 (by simp; omega)).2.infl]; exact h2
+  · rintro ⟨o1, o2, h1, h2, h3⟩
+    refine Or.inr ⟨o1, o2, h1, ?_, h3⟩
+    subst h1
+    have hok1 := ((opsOk_append_iff _ _).mp hok).1
+    have hb := begins_append o1 (.finish e.id :: o2)
+    rw [← (run_refines o1 {} {} Rel.init hok1 (by simp; omega)).2.infl]; exact h2
+
+/-- `committed_never_replayed` over histories: if `e` is stored after `ops1` (logged, not committed,
+not removed) and is then committed, no recovery after ANY continuation `ops2` (more logging with
+concurrent loggers, crashes, other commits and recoveries) makes any handler call for its id. -/
+theorem committed_never_replayed (ops1 ops2 : List Op) (e : Event) (reg : List String) (out : Event → HOut)
+    (hok : opsOk (ops1 ++ .commit e.id :: ops2)) (hn : begins (ops1 ++ .commit e.id :: ops2) < 2 ^ 64)
+    (he : e ∈ pendingOf (run ops1 {}).2) :
+    ∀ c ∈ callsOf (step (.recover reg out) (run (ops1 ++ .commit e.id :: ops2) {}).2).1, c.id ≠ e.id := by
+  have hok1 := ((opsOk_append_iff _ _).mp hok).1
+  have hb := begins_append ops1 (.commit e.id :: ops2)
+  have he' : e ∈ (absRun ops1 {}).2.pending := by rw [← (refines ops1 hok1 (by omega)).2]; exact he
+  have hg := (gone_after_commit _ (AInv.reachable ops1) e he').run e.id ops2 _
+  intro c hc
+  rw [recover_calls _ reg out hok hn] at hc
+  obtain ⟨x, hx, hid, _⟩ := calls_only_pending reg out _ c hc
+  rw [absRun_append] at hx
+  simp only [absRun] at hx
+  rw [hid]; exact hg.2.1 x hx
+
+/-- `removed_never_replayed` over histories: an event a recovery removed (its handler succeeded or
+declared it unnecessary) is never passed to a handler again by any later recovery. -/
+theorem removed_never_replayed (ops1 ops2 : List Op) (e : Event) (reg reg' : List String) (out out' : Event → HOut)
+    (hok : opsOk (ops1 ++ .recover reg out :: ops2)) (hn : begins (ops1 ++ .recover reg out :: ops2) < 2 ^ 64)
+    (he : e ∈ pendingOf (run ops1 {}).2) (hrm : removes reg out e = true) :
+    ∀ c ∈ callsOf (step (.recover reg' out') (run (ops1 ++ .recover reg out :: ops2) {}).2).1, c.id ≠ e.id := by
+  have hok1 := ((opsOk_append_iff _ _).mp hok).1
+  have hb := begins_append ops1 (.recover reg out :: ops2)
+  have he' : e ∈ (absRun ops1 {}).2.pending := by rw [← (refines ops1 hok1 (by omega)).2]; exact he
+  have hg := (gone_after_recover _ (AInv.reachable ops1) reg out e he' hrm).run e.id ops2 _
+  intro c hc
+  rw [recover_calls _ reg' out' hok hn] at hc
+  obtain ⟨x, hx, hid, _⟩ := calls_only_pending reg' out' _ c hc
+  rw [absRun_append] at hx
+  simp only [absRun] at hx
+  rw [hid]; exact hg.2.1 x hx
+
+-- the hypotheses are reachable: a decided instance (event 2 is stored after the prefix, gets
+-- committed, and the later recovery, which replays 1 and 4, makes no call for it)
+example :
+    let ops1 : List Op := [.begin "t" "a", .begin "t" "b", .finish 2, .finish 1]
+    let ops2 : List Op := [.begin "u" "c", .reopen, .begin "t" "d", .finish 4]
+    let e : Event := ⟨2, "t", "b"⟩
+    e ∈ pendingOf (run ops1 {}).2 ∧ opsOk (ops1 ++ .commit e.id :: ops2) ∧
+    (callsOf (step (.recover ["t"] (fun _ => .ok)) (run (ops1 ++ .commit e.id :: ops2) {}).2).1).map (·.id) = [1, 1, 1, 4, 4, 4] := by
+  refine ⟨by decide, by simp [opsOk, opOk], by decide⟩
 
 theorem reopen_keeps_pending (a : Abs) : (absStep .reopen a).2.pending = a.pending ∧ (absStep .reopen a).2.next = a.next :=
   ⟨rfl, rfl⟩
